@@ -284,10 +284,10 @@ def jobs(tier):
 def run_job(job, seed, tier, rec, known):
     from hypothesis import strategies as st
     ops = D.ops_strategy(job["max_ops"], WEIGHTS, min_ops=6)
-    starts = [["bare", None, None], ["rich", None, None], ["rich", None, "gap"], ["rich", None, "rotate"],
+    starts = [["bare", None, None], ["rich", None, None], ["rich", None, "gap"], ["rich", None, "rotate"], ["rich", None, "shift1"],
               ["bare", None, "reverse"], ["rich", None, "shift100"], ["rich", None, "arrays"], ["rich", None, "arrays"]]
     for d in job["decks"]:
-        starts += [["corpus", d, None], ["corpus", d, "gap"], ["corpus", d, "rotate"], ["corpus", d, "arrays"]]
+        starts += [["corpus", d, None], ["corpus", d, "gap"], ["corpus", d, "rotate"], ["corpus", d, "arrays"], ["corpus", d, "shift1"]]
     strat = st.builds(lambda s, o, e: {"start": s, "ops": o, "save_every": e}, st.sampled_from(starts), ops,
                       st.sampled_from([False, False, True]) if job["save_every"] else st.just(False))
     return hyp_search(lambda c: run_case(c, rec), strat, seed=seed, max_examples=job["n"], rec=rec, known=known,
